@@ -77,6 +77,7 @@ type (
 		orderByDefinition   OrderByDefinition
 		wg                  sync.WaitGroup
 		singletonExecutions map[string]any
+		singletonMut        sync.Mutex
 		postProcessors      []func() error
 		postProcessorsMut   sync.Mutex
 		dual                bool
@@ -1610,7 +1611,7 @@ func FunExpr(query *Query, current Map, expr *sqlparser.FuncExpr, opts ...ExprOp
 	case "once":
 		{
 			name := fmt.Sprintf("%s.%s", strings.ToLower(expr.Qualifier.String()), expr.Name.Lowered())
-			rs, ok := query.singletonExecutions[name]
+			rs, ok := query.singleton(name)
 			if !ok {
 				slice, e := FuncArgReader(query, current, expr.Exprs)
 				if e != nil {
@@ -1620,7 +1621,7 @@ func FunExpr(query *Query, current Map, expr *sqlparser.FuncExpr, opts ...ExprOp
 				if err != nil {
 					return nil, err
 				}
-				query.singletonExecutions[name] = rs
+				query.setSingleton(name, rs)
 				return rs, nil
 			}
 			return rs, nil
@@ -1628,7 +1629,7 @@ func FunExpr(query *Query, current Map, expr *sqlparser.FuncExpr, opts ...ExprOp
 	case "global":
 		{
 			name := fmt.Sprintf("%s.%s", strings.ToLower(expr.Qualifier.String()), expr.Name.Lowered())
-			rs, ok := query.singletonExecutions[name]
+			rs, ok := query.singleton(name)
 			if !ok {
 				exprs := make([]sqlparser.Expr, 0)
 				for _, expr := range expr.Exprs {
@@ -1646,7 +1647,7 @@ func FunExpr(query *Query, current Map, expr *sqlparser.FuncExpr, opts ...ExprOp
 				if err != nil {
 					return nil, err
 				}
-				query.singletonExecutions[name] = rs
+				query.setSingleton(name, rs)
 				return rs, nil
 			}
 			return rs, nil
@@ -1699,7 +1700,7 @@ func AggrFunExpr(query *Query, current Map, expr sqlparser.AggrFunc, opts ...Exp
 		return AsNumber(result), nil
 	}
 	key := "aggr." + sqlparser.String(expr)
-	rs, ok := query.singletonExecutions[key]
+	rs, ok := query.singleton(key)
 	if !ok {
 		all := Map{"*": query.filtered}
 		slice, err := AggrFuncArgReader(query, all, sqlparser.Exprs{Exprs: expr.GetArgs()})
@@ -1711,7 +1712,7 @@ func AggrFunExpr(query *Query, current Map, expr sqlparser.AggrFunc, opts ...Exp
 			return nil, err
 		}
 		result = AsNumber(result)
-		query.singletonExecutions[key] = result
+		query.setSingleton(key, result)
 		return result, nil
 	}
 	return rs, nil
@@ -1968,12 +1969,12 @@ func (query *Query) exec() (result any, err error) {
 			{
 				copy := CopyQuery(query)
 				copy.from = current
-				shareSingletons(copy.singletonExecutions, query.singletonExecutions)
+				shareSingletons(copy, query)
 				rs, err := copy.exec()
 				if err != nil {
 					return nil, err
 				}
-				shareSingletons(query.singletonExecutions, copy.singletonExecutions)
+				shareSingletons(query, copy)
 				// the inner dimension's outstanding calls and post-processors are
 				// this query's: Exec waits for them and runs them
 				query.addPostProcessors(copy.postProcessors...)
@@ -2149,10 +2150,34 @@ func CopyQuery(query *Query) *Query {
 
 // shareSingletons copies the results of ONCE and GLOBAL calls, which are computed
 // a single time per query, between a query and its copy for an inner dimension
-func shareSingletons(dst map[string]any, src map[string]any) {
-	for key, value := range src {
+func shareSingletons(dst *Query, src *Query) {
+	shared := make(map[string]any)
+	src.singletonMut.Lock()
+	for key, value := range src.singletonExecutions {
 		if strings.HasPrefix(key, "once.") || strings.HasPrefix(key, "global.") {
-			dst[key] = value
+			shared[key] = value
 		}
 	}
+	src.singletonMut.Unlock()
+	for key, value := range shared {
+		dst.setSingleton(key, value)
+	}
+}
+
+// singleton and setSingleton read and write the memo of ONCE and GLOBAL calls and
+// of whole-table aggregates. The ON clause of a PARALLEL join is evaluated by several
+// goroutines that share the query, so the map is guarded: an unguarded concurrent
+// write is a fatal error of the runtime that no recover can catch. Only the map
+// access is guarded, not the call: its arguments may hold further memoised calls
+func (query *Query) singleton(key string) (any, bool) {
+	query.singletonMut.Lock()
+	defer query.singletonMut.Unlock()
+	rs, ok := query.singletonExecutions[key]
+	return rs, ok
+}
+
+func (query *Query) setSingleton(key string, value any) {
+	query.singletonMut.Lock()
+	defer query.singletonMut.Unlock()
+	query.singletonExecutions[key] = value
 }
